@@ -126,6 +126,34 @@ def outcome(conv, t, name: str, j: Any) -> List[Any]:
         return ["unstructure-raised", type(e).__name__]
 
 
+def shape(o: Any, depth: int = 0) -> Any:
+    """the classes of a structured value, recursively (two converters that serialise alike may still have built different
+    objects: a nested object left as a raw dict, another alternative of a union with the same wire form)."""
+    import enum
+    import attrs
+    if depth > 40:
+        return "..."
+    if attrs.has(type(o)):
+        return [type(o).__name__, {a.name: shape(getattr(o, a.name), depth + 1) for a in attrs.fields(type(o)) if getattr(o, a.name) is not None}]
+    if isinstance(o, enum.Enum):
+        return ["enum", type(o).__name__]
+    if isinstance(o, dict):
+        return {str(k): shape(v, depth + 1) for k, v in o.items()}
+    if isinstance(o, (list, tuple)):
+        return [type(o).__name__] + [shape(v, depth + 1) for v in o]
+    return type(o).__name__
+
+
+def outcome_with_shape(conv, t, name: str, j: Any) -> List[Any]:
+    out = outcome(conv, t, name, j)
+    if out[0] == "ok":
+        try:
+            out = out + [json.dumps(shape(conv.structure(j, getattr(t, name))), sort_keys=True)]
+        except Exception:
+            pass
+    return out
+
+
 # ---- (A) controlled schedules in a forked child -----------------------------------------------------
 class Scheduler:
     def __init__(self, n: int, segments: List[Tuple[int, int]], grace: float = 0.25):
@@ -820,14 +848,14 @@ def _cfg_body(args) -> dict:
         def one(x):
             tv, _ = x
             j = tvgen.erase(tv)
-            ref = outcome(made["fresh"], t, name, j)
+            ref = outcome_with_shape(made["fresh"], t, name, j)
             stats["cfg_inputs"] += 1
             distinct.add(tvgen.canon_hash([name, j]))
             for label, conv in made.items():
                 if label == "fresh":
                     continue
                 stats["cfg_comparisons"] += 1
-                got = outcome(conv, t, name, j)
+                got = outcome_with_shape(conv, t, name, j)
                 if got != ref:
                     ctx.finding(("configuration-differs", f"{occ}#{idx}", label),
                                 f"{name} {json.dumps(j)[:200]}: get_converter({label}) gives {str(got)[:200]}, get_converter() gives {str(ref)[:200]}",
